@@ -189,12 +189,22 @@ func buildVariants3(rng *rand.Rand, s *scene3) (res []variant3, flattenCount int
 		cs := make([]model3d.Collider, n)
 		gg := cp()
 		model3d.GroupTriangles(gg)
+		wrapped := rng.Intn(2) == 0
 		for i, t := range gg {
-			cs[i] = t
+			if wrapped {
+				// documented use: "wrappers around triangles" - a caller's own leaf type
+				cs[i] = &taggedTriangle{Triangle: t, Part: i}
+			} else {
+				cs[i] = t
+			}
 		}
 		cc := model3d.GroupedCollidersToCollider(cs)
 		mcc, _ := cc.(model3d.MultiCollider)
-		res = append(res, variant3{"GroupedCollidersToCollider", cc, mcc, tris})
+		name := "GroupedCollidersToCollider"
+		if wrapped {
+			name += "(caller's wrapper type around each triangle)"
+		}
+		res = append(res, variant3{name, cc, mcc, tris})
 	}
 	return res, flattenCount
 }
@@ -576,3 +586,9 @@ func colliderCase3(c *vlib.Case, n, queries int) {
 }
 
 func emptyColliderCase3(c *vlib.Case) { colliderCase3(c, 0, 6) }
+
+// taggedTriangle is a caller-defined leaf: a triangle that remembers which part it belongs to.
+type taggedTriangle struct {
+	*model3d.Triangle
+	Part int
+}
